@@ -5,8 +5,8 @@ CONSTANTS
  MaxK = 7
  Margin = 4
  Variants <- A_com
- NaiveMaxP = 11
- NaiveVariants <- D_com
+ NaiveMaxP = 0
+ NaiveVariants <- None
  AccMaxP = 19
  NbrMaxP = 31
  NbrVariants <- N_com
